@@ -258,6 +258,7 @@ class World:
         self.log = log
         self.root = root
         self.zk = zkmod.SimZk(clock, log)
+        self.zk.order_seed = config.get('child_order')
         self.admin = self.zk.connect('admin')
         self.instances = list(config['instances'])
         self.hosts = {}
@@ -1411,7 +1412,9 @@ def make_config(prop, tier, rng):
             'n_ops': rng.randint(15, 120 if big else 60),
             'p_mid': rng.choice([0.0, 0.03, 0.08]),
             'p_delay': rng.choice([0.0, 0.0, 0.5, 0.8]),
-            'docker': rng.random() < 0.4, 'wmul': wmul}
+            'docker': rng.random() < 0.4, 'wmul': wmul,
+            'child_order': (rng.getrandbits(32) if rng.random() < 0.5
+                            else None)}
 
 
 class PresenceSim(enginemod.Engine):
